@@ -442,6 +442,28 @@ func (c *Ctx) c13Commit(m *pop3Model) {
 					}
 				}
 			}
+			if !okID && ok && ic.Call.IsInvoke() && ic.Call.Method.Name() == "ID" {
+				// the marked messages may be collected first by a helper: the element then ranges
+				// over a slice every element of which is snapshot[i] appended under !retain[i]
+				if u, isU := ic.Call.Value.(*ssa.UnOp); isU {
+					if ia, isIA := u.X.(*ssa.IndexAddr); isIA {
+						if hc, isCall := eng.StripConv(ia.X).(*ssa.Call); isCall {
+							if why := m.collectsMarked(hc); why == "" {
+								mb := args[len(args)-2]
+								if f := eng.LoadedField(mb); f == nil || f.Name() != "user" {
+									r.Bad("C13/COMMIT", cons, p.InstrPos(in), "RemoveMessage does not address the session's own mailbox")
+									return
+								}
+								r.Ok("C13/COMMIT", cons, p.InstrPos(in), "removes the ID() of each message collected by %s, which appends snapshot[i] only under !retain[i]", eng.CalleeName(hc.Common()))
+								return
+							} else {
+								r.Bad("C13/COMMIT", cons, p.InstrPos(in), "the removed messages come from %s, but %s", eng.CalleeName(hc.Common()), why)
+								return
+							}
+						}
+					}
+				}
+			}
 			if !okID {
 				r.Bad("C13/COMMIT", cons, p.InstrPos(in), "the id removed is not ID() of an element of the session snapshot")
 				return
@@ -1110,6 +1132,21 @@ func (c *Ctx) c13Index(m *pop3Model) {
 			}
 			n++
 			cons := siteCons(p, in, ord, "index:"+f.Name())
+			// an index handed to a helper: judge the expression at the (single) call site
+			atBlock := ia.Block()
+			for hop := 0; hop < 3; hop++ {
+				prm, isP := idx.(*ssa.Parameter)
+				if !isP {
+					break
+				}
+				sites := p.StaticCallSites(prm.Parent())
+				pi := eng.ParamIndex(prm)
+				if len(sites) != 1 || pi < 0 || pi >= len(sites[0].Args) {
+					break
+				}
+				idx = eng.StripConv(sites[0].Args[pi])
+				atBlock = sites[0].Instr.(ssa.Instruction).Block()
+			}
 			// index = n - k for a parsed n (k = 0 when the index is n itself)
 			var nv ssa.Value
 			var k int64
@@ -1128,7 +1165,7 @@ func (c *Ctx) c13Index(m *pop3Model) {
 				r.Undecided("C13/PANIC/index", cons, p.InstrPos(in), "index expression is neither a loop index nor (message number) - k")
 				return
 			}
-			decided, lower, upper := m.boundedNumber(nv, ia.Block())
+			decided, lower, upper := m.boundedNumber(nv, atBlock)
 			if !decided {
 				r.Undecided("C13/PANIC/index", cons, p.InstrPos(in), "index expression is neither a loop index nor (parsed message number) - k")
 				return
@@ -1278,4 +1315,65 @@ func firstStringArg(call *ssa.Call) ssa.Value {
 		}
 	}
 	return call.Call.Args[len(call.Call.Args)-1]
+}
+
+// collectsMarked: the module helper called by hc returns a slice built only by appending
+// snapshot elements messages[i], each append under the !retain[i] edge for the same i.
+// Returns "" or what is wrong.
+func (m *pop3Model) collectsMarked(hc *ssa.Call) string {
+	g := eng.StaticCallee(hc.Common())
+	if g == nil || !eng.InModule(g) || len(g.Blocks) == 0 {
+		return "it is not a function of the module"
+	}
+	nApp := 0
+	bad := ""
+	eng.EachInstr(g, func(in ssa.Instruction) {
+		call, ok := in.(*ssa.Call)
+		if !ok || eng.CalleeName(call.Common()) != "builtin.append" {
+			return
+		}
+		sl, ok := call.Call.Args[1].(*ssa.Slice)
+		if !ok {
+			bad = "appends a whole slice"
+			return
+		}
+		al, ok := sl.X.(*ssa.Alloc)
+		if !ok {
+			bad = "appends a whole slice"
+			return
+		}
+		for _, ref := range *al.Referrers() {
+			ia, ok := ref.(*ssa.IndexAddr)
+			if !ok {
+				continue
+			}
+			for _, r2 := range *ia.Referrers() {
+				st, ok := r2.(*ssa.Store)
+				if !ok {
+					continue
+				}
+				nApp++
+				u, ok := st.Val.(*ssa.UnOp)
+				if !ok {
+					bad = "appends something that is not a snapshot element"
+					continue
+				}
+				ea, ok := u.X.(*ssa.IndexAddr)
+				if !ok || !eng.SameField(eng.LoadedField(ea.X), m.fMessages) {
+					bad = "appends something that is not a snapshot element"
+					continue
+				}
+				if !m.retainGuard(call.Block(), ea.Index, false) {
+					bad = "appends snapshot[i] without the guard !retain[i] for the same i: unmarked messages would be deleted on QUIT"
+				}
+			}
+		}
+	})
+	if bad != "" {
+		return bad
+	}
+	if nApp == 0 {
+		return "it appends nothing"
+	}
+	return ""
 }
